@@ -6,6 +6,7 @@ import (
 	"go/token"
 	"go/types"
 	"strings"
+	"sync"
 	"sync/atomic"
 	"unicode/utf8"
 
@@ -41,11 +42,47 @@ type Interp struct {
 	mapOrderMode int
 	initDone map[string]bool
 	curProp string
+	curIns  ssa.Instruction
+}
+
+// fnInfo numbers the SSA values of a function so that frames can use a slice.
+type fnInfo struct {
+	idx map[ssa.Value]int32
+	n   int
+}
+
+var fnInfos sync.Map // *ssa.Function -> *fnInfo
+
+func infoOf(f *ssa.Function) *fnInfo {
+	if v, ok := fnInfos.Load(f); ok {
+		return v.(*fnInfo)
+	}
+	fi := &fnInfo{idx: map[ssa.Value]int32{}}
+	add := func(v ssa.Value) {
+		fi.idx[v] = int32(fi.n)
+		fi.n++
+	}
+	for _, p := range f.Params {
+		add(p)
+	}
+	for _, fv := range f.FreeVars {
+		add(fv)
+	}
+	for _, b := range f.Blocks {
+		for _, ins := range b.Instrs {
+			if v, ok := ins.(ssa.Value); ok {
+				add(v)
+			}
+		}
+	}
+	fnInfos.Store(f, fi)
+	return fi
 }
 
 type frame struct {
 	fn     *ssa.Function
-	env    map[ssa.Value]Value
+	info   *fnInfo
+	env    []Value
 	block  *ssa.BasicBlock
 	prev   *ssa.BasicBlock
 	defers []func()
@@ -237,7 +274,7 @@ func (in *Interp) global(g *ssa.Global) *Value {
 	return p
 }
 
-var initAllow = map[string]bool{"strconv": true, "errors": true, "io": true, "github.com/mfcochauxlaberge/jsonapi": true, "time": false}
+var initAllow = map[string]bool{ "github.com/mfcochauxlaberge/jsonapi": true, "time": false}
 
 func (in *Interp) ensureInit(pkg *ssa.Package) {
 	path := pkg.Pkg.Path()
@@ -263,8 +300,8 @@ func (in *Interp) get(fr *frame, v ssa.Value) Value {
 	case *ssa.Builtin:
 		return v
 	}
-	if r, ok := fr.env[v]; ok {
-		return r
+	if i, ok := fr.info.idx[v]; ok {
+		return fr.env[i]
 	}
 	panic(fmt.Sprintf("get: no value for %T %s = %s in %s", v, v.Name(), v, fr.fn))
 }
@@ -316,6 +353,14 @@ func (in *Interp) callFn(fr *frame, f *ssa.Function, call *ssa.CallCommon, args 
 	if f.Origin() != nil {
 		name = f.Origin().String()
 	}
+	if f.Pkg != nil && f.Name() == "init" && len(args) == 0 && f.Signature.Recv() == nil && f.Parent() == nil {
+		// package initialisers: only allow-listed packages are initialised
+		path := f.Pkg.Pkg.Path()
+		if !initAllow[path] {
+			return nil
+		}
+		in.initDone[path] = true
+	}
 	if ic, ok := intrinsics[name]; ok {
 		r := ic(in, fr, call, args)
 		if _, fall := r.(fallThrough); !fall {
@@ -338,12 +383,13 @@ func (in *Interp) callSSA(f *ssa.Function, args []Value, env []Value) Value {
 		panic(&BoundHit{"call depth"})
 	}
 	defer func() { in.depth-- }()
-	fr := &frame{fn: f, env: make(map[ssa.Value]Value, 16)}
-	for i, p := range f.Params {
-		fr.env[p] = args[i]
+	fi := infoOf(f)
+	fr := &frame{fn: f, info: fi, env: make([]Value, fi.n)}
+	for i := range f.Params {
+		fr.env[i] = args[i]
 	}
-	for i, fv := range f.FreeVars {
-		fr.env[fv] = env[i]
+	for i := range f.FreeVars {
+		fr.env[len(f.Params)+i] = env[i]
 	}
 	fr.block = f.Blocks[0]
 	if f.Pkg != nil && f.Pkg == in.P.Pkg {
@@ -392,6 +438,7 @@ func (in *Interp) runFrame(fr *frame) {
 	instrs:
 		for _, ins := range b.Instrs {
 			in.instr++
+			in.curIns = ins
 			if in.instr > in.P.MaxInstr {
 				panic(&BoundHit{"instruction budget"})
 			}
@@ -400,7 +447,7 @@ func (in *Interp) runFrame(fr *frame) {
 			case *ssa.Phi:
 				for i, pred := range b.Preds {
 					if pred == fr.prev {
-						fr.env[ins] = in.get(fr, ins.Edges[i])
+						fr.env[fr.info.idx[ins]] = in.get(fr, ins.Edges[i])
 						break
 					}
 				}
@@ -452,7 +499,7 @@ func (in *Interp) runFrame(fr *frame) {
 				m := in.get(fr, ins.Map).(*Map)
 				in.mapUpdate(m, in.get(fr, ins.Key), in.get(fr, ins.Value))
 			case ssa.Value:
-				fr.env[ins] = in.evalInstr(fr, ins)
+				fr.env[fr.info.idx[ins]] = in.evalInstr(fr, ins)
 			default:
 				in.unsupported("instruction %T", ins)
 			}
@@ -1586,3 +1633,16 @@ func roundupsize(sz uint64) uint64 {
 }
 
 func (in *Interp) countInstr() { atomic.AddInt64(&in.Path.Ex.Instr, in.instr) }
+
+// Where describes the instruction being executed (for diagnostics).
+func (in *Interp) Where() string {
+	if in.curIns == nil {
+		return ""
+	}
+	pos := in.P.Prog.Fset.Position(in.curIns.Pos())
+	fn := ""
+	if in.curIns.Parent() != nil {
+		fn = in.curIns.Parent().String()
+	}
+	return fmt.Sprintf("%s: %s [%s]", fn, in.curIns.String(), pos)
+}
